@@ -35,7 +35,7 @@ def parse_pair(line):
 def run(v, tier, seed, replay):
     lean = C.lean_check(["C15"], tier)
     r = C.Rng(seed * 1000003 + 15)
-    n = 120 if tier == "quick" else 1500
+    n = 240 if tier == "quick" else 1500
     cases = macrogen.gen_cases(r, n)
     cdir = os.path.join(C.HARNESS, "fh-macro")
     with C.BuildLock():
